@@ -390,6 +390,23 @@ def wfL (parent : List Str) : List NsD → Bool
   | n :: l => (n.name.dropLast == parent && n.name != []) && n.wf && wfL parent l
 end
 
+/-! ## Writing the files of a run into an output directory that already has content -/
+
+/-- an output directory: path ↦ content -/
+abbrev OutDir (α : Type) := List (List Str × α)
+
+/-- `open(path, "w")` + write: whatever was at the path is replaced by exactly the new content -/
+def writeFile {α : Type} (fs : OutDir α) (p : List Str) (c : α) : OutDir α := (p, c) :: fs.filter (fun f => f.1 != p)
+
+def readFile {α : Type} (fs : OutDir α) (p : List Str) : Option α := (fs.find? (fun f => f.1 == p)).map (·.2)
+
+/-- a generation run writes its files one after the other -/
+def writeAll {α : Type} (fs : OutDir α) (files : List (List Str × α)) : OutDir α :=
+  files.foldl (fun fs f => writeFile fs f.1 f.2) fs
+
+/-- what an opener without `O_TRUNC` does to a file that is already there: the new bytes overwrite the front, the rest stays -/
+def overwriteInPlace (old new : Str) : Str := new ++ old.drop new.length
+
 /-! ## Executable forms of the hypotheses of the link theorem -/
 
 deriving instance DecidableEq for CType
